@@ -258,10 +258,14 @@ fn visit_tcp(
             WSCALE => {
                 olayout.push(TcpOption::Ws);
 
-                wscale = Some(data[0]);
+                // A window-scale option may arrive without its payload byte (length 2, or cut
+                // off by the end of the option area): there is no scale to report then.
+                if let Some(&scale) = data.first() {
+                    wscale = Some(scale);
 
-                if data[0] > 14 {
-                    quirks.push(Quirk::ExcessiveWindowScaling);
+                    if scale > 14 {
+                        quirks.push(Quirk::ExcessiveWindowScaling);
+                    }
                 }
             }
             SACK_PERMITTED => {
